@@ -151,4 +151,56 @@ theorem src_buildFullCompactPlan_expected : src_buildFullCompactPlan = "{ if !m.
 
 theorem src_FullCompact_expected : src_FullCompact = "{ n := int64(maxFullCompactor) - atomic.LoadInt64(&fullCompactingCount) if n < 1 { return nil } if preLevel := config.PreFullCompactLevel(); preLevel > 0 { plans := m.buildFullCompactPlan(n, preLevel) if len(plans) > 0 { m.scheduler.ExecuteBatch(m.buildCompactTasks(plans, true, shid), m.stopCompMerge) return nil } } plans := m.buildFullCompactPlan(n, 0) if len(plans) > 0 { m.scheduler.ExecuteBatch(m.buildCompactTasks(plans, true, shid), m.stopCompMerge) } return nil }" := by rfl
 
+/-! ### the writers of the file metadata and the read path that prunes with it (model: OG.C03.Meta) -/
+
+theorem blockUpd_stream_expected : blockUpd_stream = "own" := by rfl
+
+theorem blockUpd_builder_expected : blockUpd_builder = "own" := by rfl
+
+theorem blockUpd_merge_expected : blockUpd_merge = "own" := by rfl
+
+theorem src_MetaIndex_expected : src_MetaIndex = "{ if err := r.lazyInit(); err != nil { errInfo := errno.NewError(errno.LoadFilesFailed) return -1, nil, err } if id < r.trailer.minId || id > r.trailer.maxId { return 0, nil, nil } idx := searchMetaIndexItem(r.metaIndexItems, id) if idx < 0 { return -1, nil, nil } metaIndex := &r.metaIndexItems[idx] if !tr.Overlaps(metaIndex.minTime, metaIndex.maxTime) { return 0, nil, nil } return idx, metaIndex, nil }" := by rfl
+
+theorem src_searchMetaIndexItem_expected : src_searchMetaIndexItem = "{ left, right := 0, len(metaIndexItems)-1 for left < right { mid := int(uint(left+right) >> 1) m := &metaIndexItems[mid] m1 := &metaIndexItems[mid+1] if id == m.id || (id > m.id && id < m1.id) { return mid } else if id == m1.id { return mid + 1 } else if id < m.id { right = mid } else if id > m1.id { left = mid + 1 } } if id >= metaIndexItems[left].id { return left } return -1 }" := by rfl
+
+theorem src_needSwitchChunkMeta_expected : src_needSwitchChunkMeta = "{ maxCount := conf.maxChunkMetaItemCount if GetChunkMetaCompressMode() != ChunkMetaCompressNone { maxCount = util.CompressModMaxChunkMetaItemCount } return size >= conf.maxChunkMetaItemSize || count >= maxCount }" := by rfl
+
+theorem src_readerContains_expected : src_readerContains = "{ if !r.trailer.ContainsId(id) || !r.trailer.ContainsTime(tm) { return false } if err := r.lazyInit(); err != nil { errInfo := errno.NewError(errno.LoadFilesFailed) return false } bytes := make([]byte, 8) binary.BigEndian.PutUint64(bytes, id) return r.bloom.Contains(bytes) }" := by rfl
+
+theorem metaUpd_stream_expected : metaUpd_stream = [
+  ("c.mIndex.count == 0", "c.mIndex.minTime = minT"),
+  ("c.mIndex.count == 0", "c.mIndex.maxTime = maxT"),
+  ("c.trailer.idCount == 0", "c.trailer.minTime = minT"),
+  ("c.trailer.idCount == 0", "c.trailer.maxTime = maxT"),
+  ("c.trailer.minTime > minT", "c.trailer.minTime = minT"),
+  ("c.trailer.maxTime < maxT", "c.trailer.maxTime = maxT"),
+  ("c.mIndex.minTime > minT", "c.mIndex.minTime = minT"),
+  ("c.mIndex.maxTime < maxT", "c.mIndex.maxTime = maxT")
+] := by rfl
+
+theorem metaUpd_builder_expected : metaUpd_builder = [
+  ("b.mIndex.count == 0", "b.mIndex.minTime = minT"),
+  ("b.mIndex.count == 0", "b.mIndex.maxTime = maxT"),
+  ("b.mIndex.minTime > minT", "b.mIndex.minTime = minT"),
+  ("b.mIndex.maxTime < maxT", "b.mIndex.maxTime = maxT")
+] := by rfl
+
+theorem metaUpd_builderTrailer_expected : metaUpd_builderTrailer = [
+  ("b.trailer.idCount == 0", "b.trailer.minTime = minTime"),
+  ("b.trailer.idCount == 0", "b.trailer.maxTime = maxTime"),
+  ("b.trailer.minTime > minTime", "b.trailer.minTime = minTime"),
+  ("b.trailer.maxTime < maxTime", "b.trailer.maxTime = maxTime")
+] := by rfl
+
+theorem metaUpd_merge_expected : metaUpd_merge = [
+  ("c.mIndex.count == 0", "c.mIndex.minTime = minT"),
+  ("c.mIndex.count == 0", "c.mIndex.maxTime = maxT"),
+  ("c.trailer.idCount == 0", "c.trailer.minTime = minT"),
+  ("c.trailer.idCount == 0", "c.trailer.maxTime = maxT"),
+  ("c.trailer.minTime > minT", "c.trailer.minTime = minT"),
+  ("c.trailer.maxTime < maxT", "c.trailer.maxTime = maxT"),
+  ("c.mIndex.minTime > minT", "c.mIndex.minTime = minT"),
+  ("c.mIndex.maxTime < maxT", "c.mIndex.maxTime = maxT")
+] := by rfl
+
 end OG.C03.Facts
